@@ -1133,7 +1133,11 @@ def p_act( ctx ):
     nx = csrc.get( 'client.__next__' )
     cfg = CFG( nx )
     # result (non-None) only under self.frame.terminal
-    assigns = [ n for n in cfg.nodes if n.kind == 'stmt' and isinstance( n.stmt, ast.Assign ) and dotted( n.stmt.targets[0] ) == 'result'
+    nrets = [ r for r in nx.body if isinstance( r, ast.Return ) and isinstance( r.value, ast.Name ) ]
+    if not nrets:
+        raise AnalysisError( 'client.__next__: final `return <result>` not found' )
+    RESULT = nrets[-1].value.id
+    assigns = [ n for n in cfg.nodes if n.kind == 'stmt' and isinstance( n.stmt, ast.Assign ) and dotted( n.stmt.targets[0] ) == RESULT
                 and not ( isinstance( n.stmt.value, ast.Constant ) and n.stmt.value.value is None ) ]
     term_tests = [ n for n in cfg.nodes if n.kind == 'test' and pmatch( n.expr, 'self.frame.terminal' ) ]
     if not assigns:
